@@ -14,6 +14,11 @@ Inductive gerr := GErr (e : cerr) | GInternal (what : string).
 (* NamedEntity(type, start_pos, name, extra) as the code builds it *)
 Definition gent := (str * Z * str * option pyval)%type.
 
+Definition g_type (e : gent) : str := fst (fst (fst e)).
+Definition g_pos (e : gent) : Z := snd (fst (fst e)).
+Definition g_name (e : gent) : str := snd (fst e).
+Definition g_extra (e : gent) : option pyval := snd e.
+
 Inductive gres (A : Type) := GOk (a : A) | GFail (e : gerr).
 Arguments GOk {A} a.
 Arguments GFail {A} e.
